@@ -39,13 +39,15 @@ HMul(p, q) == << (p[1] * q[1] - p[2] * q[2] - p[3] * q[3] - p[4] * q[4]) \div 2,
 HQ(o) == << QF(o[1], 2), QF(o[2], 2), QF(o[3], 2), QF(o[4], 2) >>
 
 \* ---------------------------------------------------------------- rational angles <<cos, sin>>
-Tiny == LET den == NAdd(NShl(<<1>>, 24), <<1>>) IN << QMk(ZMk(FALSE, NSub(NShl(<<1>>, 24), <<1>>)), den), QMk(ZMk(FALSE, NShl(<<1>>, 13)), den) >>   \* t = 2^-12
-Angles == << <<QF(3, 5), QF(4, 5)>>, <<QF(5, 13), QF(-12, 13)>>, <<QF(-4, 5), QF(3, 5)>>, <<QZero, QOne>>, <<QOne, QZero>>, <<QZero, QI(-1)>>,
-             <<QI(-1), QZero>>, Tiny, << Tiny[2], Tiny[1] >>, << Tiny[2], QNeg(Tiny[1]) >> >>      \* the last two: +-90 degrees -+ 2^-11
-NA == Len(Angles)
-AnglesOK == \A i \in 1..NA : CsOnCircle(Angles[i])
+\* rational angles as integer triples <<cn, sn, d>>: cos = cn/d, sin = sn/d  (the 8th: t = 2^-12; the last two: +-90 degrees -+ 2^-11)
+AngleT == << <<3, 4, 5>>, <<5, -12, 13>>, <<-4, 3, 5>>, <<0, 1, 1>>, <<1, 0, 1>>, <<0, -1, 1>>, <<-1, 0, 1>>,
+             <<16777215, 8192, 16777217>>, <<8192, 16777215, 16777217>>, <<8192, -16777215, 16777217>> >>
+NA == Len(AngleT)
+Angles == [i \in 1..NA |-> << QF(AngleT[i][1], AngleT[i][3]), QF(AngleT[i][2], AngleT[i][3]) >>]
+AngleD == [i \in 1..NA |-> << DI(AngleT[i][1]), DI(AngleT[i][2]), DI(AngleT[i][3]) >>]
+AnglesOK == \A i \in 1..NA : CsOnCircle(Angles[i]) /\ DTripleOK(AngleD[i])
 
-VBoxI == { <<1, 0, 0>>, <<1, 2, 3>>, <<100, -7, 3>> }
+VBoxI == { <<1, 2, 3>>, <<100, -7, 3>> }
 DualTs == { <<0, 0, 0>>, <<-3, 1, 2>> }
 VQ(v) == << QI(v[1]), QI(v[2]), QI(v[3]) >>
 UnitVs == { <<1, 0, 0, 1>>, <<0, 1, 0, 1>>, <<0, 0, 1, 1>>, <<1, 2, 2, 3>>, <<2, 3, 6, 7>>, <<-1, 4, -8, 9>>, <<0, -3, 4, 5>>, <<2, -2, 1, 3>>, <<4, 0, 3, 5>>, <<3, 4, 0, 5>> }
@@ -59,7 +61,7 @@ P1 == <<1, 0, 0, 0, 1>>
 Init == ph = "pick" /\ grp \in 0..(NG - 1) /\ orient = HId /\ probe = P1 /\ tri = <<1, 1, 1>>
 PickQ == ph = "pick" /\ ph' = "quat" /\ probe' \in {p \in Probes : GrpOf(p) = grp} /\ UNCHANGED <<grp, orient, tri>>
 PickE == ph = "pick" /\ ph' = "euler" /\ tri' \in {t \in (1..NA) \X (1..NA) \X (1..NA) : (t[1] + 3 * t[2] + 7 * t[3]) % NG = grp} /\ UNCHANGED <<grp, orient, probe>>
-Turn == ph = "quat" /\ \E g \in Gens : orient' = HMul(orient, g) /\ UNCHANGED <<ph, grp, probe, tri>>
+Turn == ph = "quat" /\ (IF Len(probe) = 4 THEN TRUE ELSE (IF probe[5] <= 2 THEN TRUE ELSE (probe[1] = 0 /\ probe[5] = 3) \/ (probe[2] = probe[3] /\ probe[5] = 5))) /\ \E g \in Gens : orient' = HMul(orient, g) /\ UNCHANGED <<ph, grp, probe, tri>>
 Next == PickQ \/ PickE \/ Turn
 Spec == Init /\ [][Next]_vars
 
@@ -111,6 +113,35 @@ InvEulerQuat == InEuler => LET t == TriP q == EulerQuat(t[1], t[2], t[3]) p == D
                    /\ QEq(PitchX(q), QMul(p[1], y[1])) /\ QEq(PitchY(q), QMul(p[2], y[1]))
                    /\ QEq(RollX(q), QMul(r[1], y[1])) /\ QEq(RollY(q), QMul(r[2], y[1]))
                    /\ QEq(CosYaw2(q), Sq(y[1]))
+
+\* ---------------------------------------------------------------- the dyadic evaluators used by Trace_C04 agree with the definitions
+SameQ(ds, qs) == AllEq(QOfDs(ds), qs)
+InvTwinsQuat == (InQuat /\ Len(probe) = 5 /\ orient \in {HId, <<1, 1, 1, 1>>, <<0, 2, 0, 0>>, <<-1, 1, -1, 1>>}) =>
+    LET pd == << DI(probe[1]), DI(probe[2]), DI(probe[3]), DI(probe[4]) >> pq == << QI(probe[1]), QI(probe[2]), QI(probe[3]), QI(probe[4]) >>
+        od == << DMul2k(DI(orient[1]), -1), DMul2k(DI(orient[2]), -1), DMul2k(DI(orient[3]), -1), DMul2k(DI(orient[4]), -1) >> oq == HQ(orient)
+        vd == << DI(100), DI(-7), DI(3) >> vq == VQ(<<100, -7, 3>>)
+    IN /\ SameQ(DqMul(pd, od), QuatMul(pq, oq)) /\ SameQ(DqMul(od, pd), QuatMul(oq, pq)) /\ SameQ(DqConj(pd), QuatConj(pq))
+       /\ SameQ(DqToMat3(pd), QuatToMat3(pq).e) /\ SameQ(DqToMat3(od), QuatToMat3(oq).e)
+       /\ SameQ(Dm3Mul(DqToMat3(pd), DqToMat3(od)), MMul(QuatToMat3(pq), QuatToMat3(oq)).e)
+       /\ SameQ(Dm3T(DqToMat3(pd)), MTranspose(QuatToMat3(pq)).e)
+       /\ SameQ(Dm3Vec(DqToMat3(pd), vd), MVec(QuatToMat3(pq), vq))
+       /\ SameQ(DqSandwich(pd, vd), QuatRotateC(pq, vq))
+       /\ SameQ(DqRotate(od, vd), QuatRotateC(oq, vq))                                   \* unit quaternion: rotation through the matrix
+       /\ SameQ(DvCross(DQVec(pd), vd), VCross(QVec(pq), vq)) /\ QEq(QFromD(DvDot(DQVec(pd), vd)), VDot(QVec(pq), vq))
+       /\ QEq(QFromD(DqNorm2(pd)), QuatNorm2(pq)) /\ QEq(QFromD(DvSum1(pd)), Sum1(pq))
+       /\ QEq(QFromD(DPitchX(pd)), PitchX(pq)) /\ QEq(QFromD(DPitchY(pd)), PitchY(pq)) /\ QEq(QFromD(DRollX(pd)), RollX(pq))
+       /\ QEq(QFromD(DRollY(pd)), RollY(pq)) /\ QEq(QFromD(DYawSin(pd)), YawSin(pq)) /\ QEq(QFromD(DCosYaw2(pd)), CosYaw2(pq))
+       /\ SameQ(DDqDual(od, vd), DQMake(oq, vq)[2]) /\ SameQ(DDqTrans(od, DDqDual(od, vd)), DQTrans(oq, DQMake(oq, vq)[2]))
+InvTwinsEuler == InEuler =>
+    LET td == << AngleD[tri[1]], AngleD[tri[2]], AngleD[tri[3]] >> p == TriP den == QFromD(DenProd(td)) IN
+       /\ \A nm \in EulerNames3 : SameQ(DEulerMats(nm, td), MScale(EulerMat(nm, p), den).e)
+       /\ \A nm \in EulerNames2 : LET t2 == << td[1], td[2] >> IN SameQ(DEulerMats(nm, t2), MScale(EulerMat(nm, << p[1], p[2] >>), QFromD(DenProd(t2))).e)
+       /\ \A ax \in {"X", "Y", "Z"} : /\ SameQ(DAxisRots(ax, td[1]), MScale(AxisRot(ax, p[1]), QFromD(td[1][3])).e)
+                                       /\ SameQ(DDAxisRots(ax, td[2], DI(-3)), MScale(DAxisRot(ax, p[2], QI(-3)), QFromD(td[2][3])).e)
+       /\ SameQ(DEulerQuats(td[1], td[2], td[3]), VScale(EulerQuat(p[1], p[2], p[3]), den))
+       /\ \A u \in {<<1, 2, 2, 3>>, <<0, 0, 1, 1>>, <<-1, 4, -8, 9>>} : LET ad == << DI(u[1]), DI(u[2]), DI(u[3]) >> L == DI(u[4]) IN
+              /\ SameQ(DRotAxiss(td[1], ad, L), MScale(RotAxis3(p[1][1], p[1][2], UQ(u)), QFromD(DMul(td[1][3], DSq(L)))).e)
+              /\ SameQ(DAngleAxiss(td[2], ad, L), VScale(AngleAxisQ(p[2], UQ(u)), QFromD(DMul(td[2][3], L))))
 
 \* ---------------------------------------------------------------- non-vacuity
 ASSUME AnglesOK
